@@ -28,7 +28,9 @@ Inductive token :=
 | TWord      (* a word that does not start with a literal: 'q r' "$x" $(a) ${x} *)
 | TLit       (* literal word, not a valid name, not reserved: -x a.b 1 x/y *)
 | TName      (* literal word that is a valid name and not reserved *)
-| TAssign    (* name=value *)
+| TAssign    (* name=value with a purely literal value: v=1 v= *)
+| TAssignW   (* name=value whose value has a quoted/expanded part (w='a b' v=$x): lexed as _Lit "w=" + more
+                word parts, so it is not a _LitWord and getLit consumes only its literal head *)
 | TIf | TThen | TElif | TElse | TFi | TWhile | TUntil | TDo | TDone | TFor | TIn | TCase | TEsac
 | TLbrace | TRbrace | TBang
 | TSemi | TAmp | TAndAnd | TOrOr | TPipe | TLparen | TRparen | TDSemi | TNewl
@@ -80,7 +82,7 @@ Definition is_litword (t : token) : bool :=   (* tok == _LitWord *)
 Definition get_word (ts : list token) : option (list token) :=
   match ts with
   | t :: r => if is_litword t then Some r
-              else match t with TWord => Some r | TIoRedir => Some (TRedir :: r) | _ => None end
+              else match t with TWord | TAssignW => Some r | TIoRedir => Some (TRedir :: r) | _ => None end
   | [] => None
   end.
 
@@ -88,7 +90,11 @@ Definition get_word (ts : list token) : option (list token) :=
 Definition get_lit (ts : list token) : option (list token) :=
   match ts with
   | t :: r => if is_litword t then Some r
-              else match t with TIoRedir => Some (TRedir :: r) | _ => None end
+              else match t with
+                   | TIoRedir => Some (TRedir :: r)
+                   | TAssignW => Some (TWord :: r)   (* the literal `w=` is taken, the rest of the word stays *)
+                   | _ => None
+                   end
   | [] => None
   end.
 
@@ -157,6 +163,7 @@ Fixpoint call_loop (posix : bool) (fuel : nat) (o : nat) (q : quote) (first : op
           else match t with
                | TNewl | TSemi | TAmp | TPipe | TAndAnd | TOrOr | TDSemi => POk ts
                | TWord => call_loop posix f o q (match first with None => Some TWord | _ => first end) r
+               | TAssignW => call_loop posix f o q first r   (* an assignment while there are no args, else an arg (never Args[0]'s Lit) *)
                | TLparen => unexpected_in_call posix o first ts
                | TRparen => match q with QSub => POk ts | _ => unexpected_in_call posix o first ts end
                | _ => (* TRedir TIoRedir *)
@@ -368,7 +375,7 @@ Section Parser.
               | TDone => perr o ts1 EDone (length ts1)
               | TEsac => perr o ts1 EEsac (length ts1)
               | TBang => if negated then as_name else perr o ts1 EBangFull (length ts1)
-              | TAssign => bind (call_loop posix fuel o q None r) (fun x => POk (Some (x, false)))
+              | TAssign | TAssignW => bind (call_loop posix fuel o q None r) (fun x => POk (Some (x, false)))
               | TLit | TName | TIn => as_name
               | TWord =>
                   match r with
@@ -647,7 +654,7 @@ Definition sh_dash : shell := {| sh_lone_bang := false; sh_func_any_cmd := true;
 
 (* WORD where no reserved word is recognised: any word-like token *)
 Definition is_word (t : token) : bool :=
-  is_litword t || match t with TWord => true | _ => false end.
+  is_litword t || match t with TWord | TAssignW => true | _ => false end.
 
 (* WORD at a position where rule 1 applies: reserved words are not WORDs *)
 Definition is_plain_word (t : token) : bool :=
@@ -701,7 +708,7 @@ Fixpoint a_prefix (fuel : nat) (ts : list token) : option (list token) :=
   match fuel with
   | O => None
   | S f => match ts with
-           | TAssign :: r => a_prefix f r
+           | (TAssign | TAssignW) :: r => a_prefix f r
            | t :: r => match a_redirect ts with
                        | AOk r' => a_prefix f r'
                        | AFail => None
@@ -813,7 +820,7 @@ Section Spec.
         | [] => ANone
         | t :: r =>
             match t with
-            | TAssign | TRedir | TIoRedir =>
+            | TAssign | TAssignW | TRedir | TIoRedir =>
                 match a_prefix fuel ts with Some r' => AOk r' | None => AFail end
             | TWord | TLit | TName =>
                 match r with
